@@ -149,6 +149,16 @@ def r01b(ck, prog):
                 comparators.add(a0.d["name"])
     if not comparators:
         raise AnalysisBroken("R01b slot: msa_sort_rank passes no comparator to qsort")
+    # the input check may be split into private helpers (rank_and_count_empty()): a static function of the same file that only the
+    # input check calls, and that it runs on every path to success, is part of it
+    E0 = prog.fn(first)
+    first_fns = {first}
+    for c in E0.body.calls():
+        H = prog.fn(prog.resolve(c.callee, E0.file), required=False) if c.callee else None
+        if H is not None and H.body is not None and H.static and H.file == E0.file and \
+                all(G.name == first for G, _ in prog.callers_of(H.name) if G.file == E0.file) and \
+                not E0.succeeds_avoiding([E0.cfg.position(x) for x in E0.body.calls(H.name)]):
+            first_fns.add(H.name)
     qpos = [sr.cfg.position(c) for c in sr.body.calls("qsort")]
     for r in sr.success_returns()[:1]:
         if sr.succeeds_avoiding(qpos):
@@ -176,15 +186,15 @@ def r01b(ck, prog):
                         loops = [a for a in asg.ancestors() if a.k == "ForStmt"]
                         if loops and _induction_var(loops[0]) == r0.d["did"]:
                             # the index used to reach the sequence must be the same variable
-                            base_txt = m.kids[0].text()
-                            idx_ok = ("[%s]" % r0.d["name"]) in base_txt or F.name != first and True
-                            if F.name == first:
+                            from ..inline import render as _render
+                            base_txt = _render(m.kids[0], None)        # local aliases expanded: s->rank with s = msa->sequences[i]
+                            if F.name in first_fns:
                                 ok = ("[%s]" % r0.d["name"]) in base_txt
                             else:
                                 # constructors: object under construction inside the construction loop
                                 ok = any(c.callee in ("malloc",) or "MMALLOC" in c.mac for c in loops[0].find("CallExpr")) or \
                                      any("MMALLOC" in x.mac for x in loops[0].walk())
-                if not ok and F.name == first and mode == "write" and r0 is not None and r0.k == "DeclRefExpr":
+                if not ok and F.name in first_fns and mode == "write" and r0 is not None and r0.k == "DeclRefExpr":
                     raise AnalysisBroken("R01b: %s records rank = %s in a loop shape the rule does not recognise (no counted for-loop "
                                          "indexing sequences[%s])" % (F.name, r0.text(), r0.text()))
                 if not ok:
@@ -232,7 +242,7 @@ def r01b(ck, prog):
                          "the rank comparator does not order ascending: rows would come back in reverse/other order", prog.config)
     # the first stage records rank for every sequence 0..numseq
     E = prog.fn(first)
-    w = [a for a, l, r in stores_to_field(E.body, "msa_seq", "rank")]
+    w = [a for nm in sorted(first_fns) for a, l, r in stores_to_field(prog.fn(nm).body, "msa_seq", "rank")]
     if not w:
         ck.violation("R01b", "R01b/%s/rank-missing" % first, site(prog, E),
                      "%s no longer records msa_seq.rank: the caller's order cannot be restored" % first, prog.config)
